@@ -68,6 +68,25 @@ func lookupCond(cond ssa.Value) (table string, key ssa.Value) {
 	}
 	lk, ok := ex.Tuple.(*ssa.Lookup)
 	if !ok || !lk.CommaOk {
+		// a look-up wrapper of the module: func(key) (value, found) whose body looks the key up in a global table (exactly
+		// first, then by a comparison that folds case) and returns found=false only when no key matches
+		if call, ok := ex.Tuple.(*ssa.Call); ok {
+			if f := staticCallee(&call.Call); f != nil && inPkgName(f) && f.Blocks != nil && len(f.Params) == 1 && len(call.Call.Args) == 1 {
+				table := ""
+				eachInstr(f, func(_ *ssa.BasicBlock, _ int, in ssa.Instruction) {
+					if l2, ok := in.(*ssa.Lookup); ok && l2.CommaOk && l2.Index == ssa.Value(f.Params[0]) {
+						if g, ok := l2.X.(*ssa.UnOp); ok {
+							if gl, ok := g.X.(*ssa.Global); ok {
+								table = "global:" + gl.Name()
+							}
+						}
+					}
+				})
+				if table != "" {
+					return table, call.Call.Args[0]
+				}
+			}
+		}
 		return "", nil
 	}
 	f, _ := fieldLoad(lk.X)
